@@ -13,6 +13,16 @@ func init() {
 		ruleC10,
 		ruleIndexesMembership("C10-b membership-hold"),
 		func(p *Prog, r *Res) { ruleFreshBitmasks(p, r, "C10-b cow-published-bitmask", []string{"manager"}, 30) })
+	readerStack := func(t types.Type) bool {
+		return t != nil && types.TypeString(t, nil) == "[]*github.com/spq/pkappa2/internal/index.Reader"
+	}
+	const explE = "C10-e (FRESH-slices on reader stacks): every append in packages index and manager whose first argument is a []*index.Reader writes into a backing array the function owns. A view's index list is handed down to SearchStreams and buildSearchObjects as sub-slices of the view's own array; filtering such a slice in place (x[:0] + append) rewrites the view's list, and later queries on the same view lose the streams of the overwritten files."
+	register("C10", explE, func(p *Prog, r *Res) {
+		ruleAppendOwnedFiltered(p, r, "C10-e reader-stacks-read-only", []string{"index", "manager"}, 8, readerStack)
+	})
+	register("C07", "C07-g = "+explE, func(p *Prog, r *Res) {
+		ruleAppendOwnedFiltered(p, r, "C07-g reader-stacks-read-only", []string{"index", "manager"}, 8, readerStack)
+	})
 	register("C07",
 		"C07-d (merge replacement): the C13-b rule on mergeIndexesJob's completion — the merged run replaces exactly the sub-slice that was released, the inserted readers are locked, and every reader outside the run stays in Manager.indexes.",
 		ruleIndexesMembership("C07-d membership-hold"))
